@@ -145,7 +145,8 @@ def pairwise_screen(draw):
     """Layout on which PairwisePlateGenerator returns: every sample has full combinations among its unobserved
     experiments; single-agent rows and vehicle-only (control, control) rows are mixed in."""
     ns = draw(st.integers(1, 3))
-    nt = draw(st.integers(2, 4))
+    ar = draw(st.sampled_from([2, 2, 3]))  # screens with three treatment slots have partial combinations (d, e, control)
+    nt = draw(st.integers(ar, ar + 2))
     val = st.one_of(st.sampled_from([0.5, 0.98, 1.0]), st.floats(min_value=0.0, max_value=1.0))
     rows = []
 
@@ -155,14 +156,24 @@ def pairwise_screen(draw):
     for s in range(ns):
         for _ in range(draw(st.integers(1, 4))):
             a = draw(st.integers(0, nt - 1))
-            b = (a + 1 + draw(st.integers(0, nt - 2))) % nt
-            row(s, [a, b], "u%d" % draw(st.integers(0, 2)))
+            ts = [a]
+            while len(ts) < ar:
+                ts.append((ts[-1] + 1 + draw(st.integers(0, nt - ar))) % nt)
+            row(s, ts, "u%d" % draw(st.integers(0, 2)))
         for _ in range(draw(st.integers(0, 3))):
-            kind = draw(st.sampled_from(["single0", "single1", "vehicle", "vehicle"]))
+            kind = draw(st.sampled_from(["single0", "single1", "vehicle", "vehicle"] + (["partial", "partial"] if ar == 3 else [])))
             t = draw(st.integers(0, nt - 1))
-            ts = [t, -1] if kind == "single0" else [-1, t] if kind == "single1" else [-1, -1]
+            if kind == "partial":
+                ts = [t, (t + 1) % nt, -1]
+                k_ = draw(st.integers(0, 2))
+                ts = ts[k_:] + ts[:k_]
+            elif kind == "vehicle":
+                ts = [-1] * ar
+            else:
+                ts = [-1] * ar
+                ts[(0 if kind == "single0" else 1) if ar == 2 else draw(st.integers(0, 2))] = t
             row(s, ts, "u%d" % draw(st.integers(0, 2)))
         if draw(st.booleans()):
-            row(s, [draw(st.integers(-1, nt - 1)), draw(st.integers(-1, nt - 1))], "obs")
+            row(s, [draw(st.integers(-1, nt - 1)) for _ in range(ar)], "obs")
     observed = ["obs"] if any(r["p"] == "obs" for r in rows) else []
-    return {"arity": 2, "control": "ctl", "rows": rows, "observed": observed, "ns": ns, "nt": nt, "ssp": False}
+    return {"arity": ar, "control": "ctl", "rows": rows, "observed": observed, "ns": ns, "nt": nt, "ssp": False}
